@@ -163,6 +163,11 @@ def window_plumbing(prog, rep):
             p = want.pop(k)
             ok = norm(n.value) in (f"{p}.isoformat()", p)
             rep.check(ok, "WINDOW", q.short, f"namespace['{k}']", f"{norm(n.value)}", f"namespace['{k}'] is set from `{norm(n.value)}`, not from the query's {p}", q.loc(n))
+            from ..sqlmodel import local_defs as _ld0
+
+            rb = [d for d in _ld0(q, p)]
+            if ok and rb:
+                rep.violation("WINDOW", q.short, f"{p} re-bound", f"query() re-binds its `{p}` parameter (`{norm(rb[0])[:70]}`) before putting it into the namespace: query_bucket then reads a window other than the one the query was asked for", q.loc(rb[0]))
     for k in want:
         rep.violation("WINDOW", q.short, f"namespace['{k}']", f"the query window edge {k} is never put into the namespace", q.loc())
     # the window is set before the statements run
